@@ -955,6 +955,16 @@ def gen_spacetime(rng):
     return spec, meta
 
 
+def flat_no_coord(spec, out):
+    """Rank names that must not get a coordinate-style stamp: flattened ranks and their levels
+    (known finding C16-FLATCOORD, witness only)."""
+    roots = []
+    for key in ((spec.get("partitioning") or {}).get(out) or {}):
+        if key.startswith("("):
+            roots.append("".join(x.strip() for x in key.strip("() ").split(",")))
+    return [f.rstrip("0123456789") for f in roots] + roots
+
+
 def gen_cascade_spacetime(rng):
     """Cascade (class K) in which some Einsums carry a spacetime and some do not (a later Einsum with slip,
     an earlier one without, ...): per-Einsum display state must not leak from one Einsum to the next."""
